@@ -17,6 +17,7 @@ LEVEL = "model_checking"
 RULE = (
     "all ordered pairs of non-empty masks of G1(6,1), G2(2,3,1), G2(3,1,1), G3(1,2,3,1), G3(2,1,3,1), G3(2,3,1,1) with embedding in frames of width 1 and 3 and "
     "through the MATCHED pipeline; all pairs of G2(3,3,1) x 128 refs, G2(2,4,1), G3(2,2,2,1) x 128 refs, G3(1,3,3,1) x 64 refs (direct call + frame 1); every pair also with the masks in Fortran order, as transposed views and with negative / non-unit strides (same and mixed); "
+    "far family: every pair of non-empty subsets (<= 4 voxels in 1-D/2-D, <= 2 in 3-D) of the 2^d corner block at the origin and of the 2^d corner block at each of the 2^d corners of arrays (4,4) (5,5) (3,7) (10,10) (2,12) (3,3,3) (4,4,4) (2,5,5) (6,6,6) (12,) [thorough also (16,16) (7,9) (3,20) (8,8,8) (3,4,9) (30,)] - the nearest partner lies beyond the longest edge; diagonal staircases of length 4..12 (2-D) / 4..7 (3-D) against blobs at either end and in the off corners; each as bool, swapped, uint8 and in a frame of width 1; "
     "thorough: G2(3,3,1)^2, G3(2,2,2,1)^2, G2(3,4,1) x 256, G3(2,2,3,1) x 128, G1(8,1)^2. non-trivial = the two borders differ; distinct by mask pair"
 )
 ASSUMPTIONS = ["brute-force distances with math.sqrt/fsum; comparison to 1e-9 relative", "masks given as bool and as uint8/int64 0-1 arrays"]
@@ -39,7 +40,82 @@ def blocks(tier):
         nr = n if nref is None else nref
         for lo, hi in sc.ranges(n, max(1, 4000 // nr)):
             B.append(("direct", shape, nref, lo, hi))
+    # sparse objects far apart in larger arrays: the nearest partner border voxel is farther away than the longest
+    # array edge (diagonal), objects sit in different corners; long thin diagonal objects
+    for shape in FAR_SHAPES if tier == "quick" else FAR_SHAPES + FAR_SHAPES_THOROUGH:
+        for corner in range(2 ** len(shape)):
+            B.append(("far", shape, corner))
+    B.append(("stairs",))
     return B
+
+
+FAR_SHAPES = [(4, 4), (5, 5), (3, 7), (10, 10), (2, 12), (3, 3, 3), (4, 4, 4), (2, 5, 5), (6, 6, 6), (12,)]
+FAR_SHAPES_THOROUGH = [(16, 16), (7, 9), (3, 20), (8, 8, 8), (3, 4, 9), (30,)]
+
+
+def _corner_subsets(shape, corner, maxk):
+    """non-empty subsets (at most maxk voxels) of the 2^d block in the given corner of the array"""
+    import itertools
+
+    d = len(shape)
+    block = []
+    for off in itertools.product(*[range(min(2, n)) for n in shape]):
+        block.append(tuple((n - 1 - o) if (corner >> ax) & 1 else o for ax, (n, o) in enumerate(zip(shape, off))))
+    block = sorted(set(block))
+    out = []
+    for k in range(1, min(maxk, len(block)) + 1):
+        out += [frozenset(c) for c in itertools.combinations(block, k)]
+    return out
+
+
+def _arr(shape, S):
+    a = np.zeros(shape, dtype=bool)
+    for c in S:
+        a[c] = True
+    return a
+
+
+def _brute_sets(P, R):
+    import math
+
+    bP, bR = rm.border(P), rm.border(R)
+
+    def directed(bf, bt):
+        return math.fsum(math.sqrt(min(sum((a - b) ** 2 for a, b in zip(p, q)) for q in bt)) for p in bf) / len(bf)
+
+    return (directed(bP, bR) + directed(bR, bP)) / 2.0, bP == bR
+
+
+def _run_sparse(case, acc, shape, P, R, tagkey):
+    acc.case(*tagkey)
+    exp, same_border = _brute_sets(P, R)
+    acc.state(*tagkey)
+    if not same_border:
+        acc.nontriv(*tagkey)
+    pm, rmk = _arr(shape, P), _arr(shape, R)
+    ok = True
+    for what, a, b in (("far_value", rmk, pm), ("far_swapped", pm, rmk), ("far_uint8", rmk.astype(np.uint8), pm.astype(np.uint8)), ("far_frame1", np.pad(rmk, 1), np.pad(pm, 1))):
+        v = _assd(acc, case, what, a, b)
+        if v is None or not rm.close(v, exp):
+            ok = False
+            if v is not None:
+                acc.violation(f"C07:{what}", case, f"{what}: ASSD={v!r}, brute-force definition gives {exp!r} (shape={list(shape)}, pred voxels={sorted(P)}, ref voxels={sorted(R)})")
+    acc.outcome(round(exp, 9))
+    if ok:
+        acc.ok()
+
+
+def _stairs_cases():
+    out = []
+    for L in range(4, 13):
+        stair = frozenset((i, i) for i in range(L)) | frozenset((i, i + 1) for i in range(L - 1))
+        for blob in (frozenset({(0, 0)}), frozenset({(0, 0), (0, 1), (1, 0), (1, 1)}), frozenset({(L - 1, L - 1), (L - 2, L - 1)}), frozenset({(L - 1, 0)}), frozenset({(0, L - 1), (1, L - 1)})):
+            out.append(((L, L), stair, blob))
+        if L <= 7:
+            st3 = frozenset((i, i, i) for i in range(L))
+            for blob in (frozenset({(0, 0, 0)}), frozenset({(L - 1, 0, 0)}), frozenset({(L - 1, L - 1, L - 1), (L - 1, L - 1, L - 2)})):
+                out.append(((L, L, L), st3, blob))
+    return out
 
 
 def ref_indices(n, nref):
@@ -50,6 +126,19 @@ def ref_indices(n, nref):
 
 
 def run_block(block, acc):
+    if block[0] == "far":
+        _, shape, corner = block
+        d = len(shape)
+        maxk = 4 if d <= 2 else 2
+        A = _corner_subsets(shape, 0, maxk)
+        for i in range(len(A)):
+            for j in range(len(_corner_subsets(shape, corner, maxk))):
+                run_case({"kind": "far", "shape": list(shape), "corner": corner, "pi": i, "ri": j}, acc)
+        return
+    if block[0] == "stairs":
+        for k in range(len(_stairs_cases())):
+            run_case({"kind": "stairs", "k": k}, acc)
+        return
     kind, shape, nref, lo, hi = block
     n = sc.grid_count(shape, 1)
     for i in range(max(lo, 1), hi):
@@ -92,6 +181,15 @@ def _assd(acc, case, tag, ref, pred, *sel):
 
 
 def run_case(case, acc):
+    if case["kind"] == "far":
+        shape = tuple(case["shape"])
+        maxk = 4 if len(shape) <= 2 else 2
+        P = _corner_subsets(shape, 0, maxk)[case["pi"]]
+        R = _corner_subsets(shape, case["corner"], maxk)[case["ri"]]
+        return _run_sparse(case, acc, shape, P, R, ("far", shape, case["corner"], case["pi"], case["ri"]))
+    if case["kind"] == "stairs":
+        shape, P, R = _stairs_cases()[case["k"]]
+        return _run_sparse(case, acc, shape, P, R, ("stairs", case["k"]))
     shape = tuple(case["shape"])
     pi, ri = case["pi"], case["ri"]
     pm, rmk = sc.grid(pi, shape, 1), sc.grid(ri, shape, 1)
